@@ -223,7 +223,8 @@ SCANS = {
     "C13": ("C13-R8", {"turmoil_net::kernel::tcp::on_close": "every queued connection of a closing listener is reset",
                        "turmoil_net::kernel::tcp::reap_closed": "every closed connection is reclaimed",
                        "turmoil_net::kernel::socket::wake_all": "every waiter is woken"}),
-    "C14": ("C14-R5", {"turmoil::top::Link::take_due": "every message whose delivery time has come is delivered this tick",
+    "C14": ("C14-R5", {"turmoil::for_pairs": "a per-link latency setting given for two host sets reaches every pair of them",
+                       "turmoil::top::Link::take_due": "every message whose delivery time has come is delivered this tick",
                        "turmoil::top::Topology::tick_by": "every link is ticked"}),
     "C18": ("C18-R8", {"turmoil_io_uring::submit::schedule_pending": "every submitted entry is scheduled",
                        "turmoil_io_uring::host::IoUringHostState::crash": "every pending operation is cancelled by a crash"}),
